@@ -147,7 +147,7 @@ r('rf-resolve-helper',
 # ---- refactors written by independent sub-agents (three per property area; they saw the property text and a scratch worktree only).
 # Each was required to be behaviour-preserving, to build in all four feature sets and to leave the suite unchanged; every check runs on each.
 for _area in ('C01', 'C02', 'C03', 'C04', 'C05', 'C06', 'C07', 'C08', 'C10', 'C11', 'C12', 'C14', 'C15', 'C16', 'C17', 'C18', 'C19', 'C20'):
-    for _i in (1, 2, 3, 4, 5, 6, 7, 8, 9, 10, 11, 12, 13, 14, 15):          # r1-r3: first round, r4-r6: second, r7-r9: third (each told what the earlier ones had done)
+    for _i in (1, 2, 3, 4, 5, 6, 7, 8, 9, 10, 11, 12, 13, 14, 15, 16, 17, 18):          # r1-r3: first round, r4-r6: second, r7-r9: third (each told what the earlier ones had done)
         import os as _os
         if _os.path.exists(_os.path.join(_os.path.dirname(_os.path.dirname(_os.path.abspath(__file__))), 'selftest/refactor_diffs/%s-r%d.diff' % (_area, _i))):
             r('agent-%s-r%d' % (_area, _i), diff='selftest/refactor_diffs/%s-r%d.diff' % (_area, _i))
@@ -205,5 +205,10 @@ r('rf-mania-record-by-kind',
    "            | HitObjectKind::Hold(HoldNote { duration }) => {\n                let is_long = true;\n                params.record(duration, is_long);\n"),
   ('src/mania/object.rs', "impl<'a> ObjectParams<'a> {", "impl<'a> ObjectParams<'a> {\n    fn record(&mut self, duration: f64, is_long: bool) {\n        if is_long {\n            self.max_combo += (duration / 100.0) as u32;\n            self.n_hold_notes += 1;\n        }\n    }\n"),
   props=['C14', 'C02', 'C05'])
+
+# the FirstTwoCombos helper of seeds C01-5 / C02-5 / C03-5 / C14-5, correct: nth() asks it with the position reached, like next() does
+r('rf-first-combos-helper-by-position',
+  ('src/taiko/difficulty/gradual.rs', "self.first_combos.combo_after(skipped)", "self.first_combos.combo_after(self.idx)"),
+  diff='selftest/seed_diffs/C02-5.diff', props=['C15', 'C02', 'C03', 'C14', 'C01', 'C11'])
 
 REFACTORS = R
